@@ -56,6 +56,11 @@ def run(chk, repo):
     chk.doc("R01.5", "byte-swapped loads are sign-extended again (shared "
                      "with C01)")
     r5_endian(chk, repo, d)
+    # the decimal a fixed-point value is compared with: converted to the
+    # nearest per-100000 integer (shared with C02)
+    from .c02 import rounding
+    chk.doc("R02.2", "fixed-point constants are rounded (shared with C02)")
+    rounding(chk, repo, d)
 
 
 # statements that remove or insert instructions, allowed per function (read
